@@ -69,7 +69,51 @@ def oracle_bindings_stable(rep, prop, case, chain):
             return
 
 
-ORACLES = [oracle_just_once, oracle_bindings_stable, l1.oracle_dense_ids, l1.oracle_refs_resolve]
+def oracle_names_denote(rep, prop, case, chain):
+    """What a just_once nickname / table name denotes at every lookup the real interpreter performs.  Table name:
+    the most recent row of that table in the CURRENT iteration (a just_once row counts, like any row), otherwise
+    the last just_once row of the table.  Nickname: a row that an ORDINARY template registered under the same
+    nickname in the current iteration shadows it (recipes that reuse one nickname for several templates),
+    otherwise the last just_once row created under the nickname — always with its original table and id."""
+    if not chain.trace:
+        return
+    p_nick, p_table = {}, {}      # persistent bindings: name -> (table, id)
+    c_nick, c_table = {}, {}      # registered in the current iteration
+    for i, op in enumerate(chain.trace.ops):
+        kind = op["op"][0]
+        if "err" in op:
+            return
+        if kind == "create" and op.get("obs") and op["obs"][0] == "id":
+            _, table, nick, once = op["op"]
+            row = (table, op["obs"][1])
+            c_table[table] = row
+            if once:
+                p_table[table] = row
+                if nick:
+                    p_nick[nick] = row
+            elif nick:
+                c_nick[nick] = row
+        elif kind in ("end", "saveload"):
+            c_nick, c_table = {}, {}
+        elif kind == "lookup" and op.get("obs") and op["obs"][0] == "row":
+            name = op["op"][1]
+            # resolution order of Globals.object_names: persistent nicknames < persistent table names <
+            # this iteration's nicknames < this iteration's table names
+            want = None
+            for d in (p_nick, p_table, c_nick, c_table):
+                if name in d:
+                    want = d[name]
+            if want is None or (name not in p_nick and name not in p_table):
+                continue
+            got = tuple(op["obs"][1])
+            if got != want:
+                rep.violation(f"{prop}:just-once-name-denotes-other-row",
+                              f"op #{i}: name `{name}` denotes {got[0]}({got[1]}), expected {want[0]}({want[1]}) (its just_once row unless a row of this iteration shadows it)",
+                              case, list(want), list(got))
+                return
+
+
+ORACLES = [oracle_just_once, oracle_bindings_stable, oracle_names_denote, l1.oracle_dense_ids, l1.oracle_refs_resolve]
 
 
 def gen_case(rng):
@@ -99,6 +143,10 @@ def gen_case(rng):
     rec = []
     for i in range(rng.randint(0, 2)):
         rec.append(user(f"pre{i}"))
+    mixed = rng.random() < 0.3
+    if mixed and rng.random() < 0.6:
+        # an ordinary template of the SAME table ahead of the just_once one (its rows do not count as just_once rows)
+        rec.append({"object": "J", "fields": {"v": 1}})
     rec.append(j1)
     for i in range(rng.randint(0, 1)):
         rec.append(user(f"mid{i}"))
@@ -114,7 +162,7 @@ def gen_case(rng):
     k = rng.randint(1, 4)
     parts = recipes.compositions(k, rng) if rng.random() < 0.7 else [k]
     return {"recipe": recipes.dump(rec), "parts": parts, "features": ["just_once", "reference"],
-            "jo": {"total": c1 + c2, "nick_last": c1}}
+            "jo": None if any(t.get("object") == "J" and not t.get("just_once") for t in rec) else {"total": c1 + c2, "nick_last": c1}}
 
 
 def run(ctx, rep, findings):
